@@ -8,8 +8,11 @@
 -/
 import VotelibProofs.Lemmas.HAMono
 import VotelibProofs.Props.C01
+import VotelibProofs.Lemmas.MonoScorers
+import VotelibProofs.Lemmas.MonoAdditive
+import VotelibProofs.Lemmas.MonoBucklin
 namespace VL.C17
-open VL HACfg Gen.Divisor
+open VL HACfg Gen.Divisor VL.Convert VL.Mono
 
 /-! ## divisor rules -/
 
@@ -56,5 +59,376 @@ example : exCfg.div ∈ builtinDivisors := by simp [builtinDivisors, exCfg]
 example : VotesOK exCfg := by decide +kernel
 example : (haRun exCfg').tie = none ∧ haSeats exCfg 2 = 0 ∧ haSeats exCfg' 2 = 1 := by decide +kernel
 example : haSeats exCfg 1 = 1 ∧ haSeats exCfg.succHouse 1 = 2 := by decide +kernel
+
+/-! ## winner rules: the generic additive argument
+
+  Reading.  "Sole winner" = the evaluator's one-seat result is `[w]` (`[Slot.cand w]`).  A single ballot improvement
+  replaces ONE unit of weight of ballot `b` by ballot `b'` (`replaceUnit p b b'`); a new ballot is `addTo p nb 1`.
+  The candidates of the election are fixed: `b'` names the candidates of `b` (and `w`), a new ballot names
+  candidates that stand already. -/
+
+/-- **Generic additive monotonicity** (scores are sums over ballots of weight × per-ballot image; the changed
+    ballot moves nobody's image up by more than `w`'s): a strict sole winner stays the strict sole winner. -/
+theorem additive_winner_monotone {β : Type} [DecidableEq β] {items : β × Rat → List (Cand × Rat)}
+    {img : β → Cand → Rat} {supp : β → List Cand} (h : Additive items img supp) (p : Dict β) (b b' : β) (w : Cand)
+    (hb : b ∈ dkeys p) (hs : ∀ k, k ∈ supp b' ↔ k = w ∨ k ∈ supp b)
+    (hδ : ∀ y, y ≠ w → img b' y - img b y ≤ img b' w - img b w)
+    (hsole : getNBest (accum items p []) 1 = [Slot.cand w]) :
+    getNBest (accum items (replaceUnit p b b') []) 1 = [Slot.cand w] :=
+  additive_replace h p b b' w hb hs hδ hsole
+
+/-- the same for a new ballot that gives nobody more than it gives `w` -/
+theorem additive_winner_monotone_new {β : Type} [DecidableEq β] {items : β × Rat → List (Cand × Rat)}
+    {img : β → Cand → Rat} {supp : β → List Cand} (h : Additive items img supp) (p : Dict β) (nb : β) (w : Cand)
+    (hsub : ∀ k ∈ supp nb, k ∈ keys (accum items p []))
+    (hδ : ∀ y, img nb y ≤ img nb w)
+    (hsole : getNBest (accum items p []) 1 = [Slot.cand w]) :
+    getNBest (accum items (addTo p nb 1) []) 1 = [Slot.cand w] :=
+  additive_new h p nb w hsub hδ hsole
+
+/-! ### plurality -/
+
+/-- **Plurality**: one voter of `x` switches to the sole winner `w` — `w` stays the sole winner. -/
+theorem plurality_monotone_switch (votes : Votes) (hn : (keys votes).Nodup) (x w : Cand)
+    (h : evalPlurality votes = [Slot.cand w]) : evalPlurality (switchVote votes x w) = [Slot.cand w] := by
+  unfold evalPlurality switchVote at *
+  apply sole_map votes hn w _ ?_ h
+  intro e _ e' _ hew he'w
+  simp only [hew, he'w, ↓reduceIte]
+  split <;> split <;> norm_num
+
+/-- **Plurality**: one more vote for the sole winner. -/
+theorem plurality_monotone_new (votes : Votes) (hn : (keys votes).Nodup) (w : Cand)
+    (h : evalPlurality votes = [Slot.cand w]) : evalPlurality (oneMore votes w) = [Slot.cand w] := by
+  unfold evalPlurality oneMore at *
+  apply sole_map votes hn w _ ?_ h
+  intro e _ e' _ hew he'w
+  simp [hew, he'w]
+
+/-! ### positional rules (Borda, Dowdall, Geometric, ModifiedBorda, FixedTop) -/
+
+/-- the rank scorers covered: the five generated ones with their documented parameter ranges
+    (Borda base ≥ 0, geometric base ≥ 1) -/
+def ScorerOK : Scorer → Prop
+  | .borda base => 0 ≤ base
+  | .geometric base => 1 ≤ base
+  | .sequence _ => False
+  | _ => True
+
+/-- the generated score lists are non-increasing, non-negative and compatible with a ballot growing by one place -/
+theorem scorer_monotone (sc : Scorer) (h : ScorerOK sc) :
+    Accepts sc ∧ ∀ nC, ScorerMono (scorerFn sc nC) nC := by
+  cases sc with
+  | borda base => exact ⟨accepts_of _ (by simp), fun nC => borda_mono base h nC⟩
+  | dowdall => exact ⟨accepts_of _ (by simp), fun nC => dowdall_mono nC nC⟩
+  | geometric base =>
+    have hb : 1 ≤ base := h
+    exact ⟨accepts_of _ (by simp; omega), fun nC => geometric_mono base nC nC hb⟩
+  | modifiedBorda => exact ⟨accepts_of _ (by simp), fun nC => modifiedBorda_mono nC nC⟩
+  | fixedTop top => exact ⟨accepts_of _ (by simp), fun nC => fixedTop_mono top nC nC⟩
+  | sequence seq => exact absurd h (by simp [ScorerOK])
+
+/-- **Positional rules, single ballot improvement.**  For every profile of well-formed ballots: if `w` is the sole
+    winner and one unit of weight of ballot `b` is replaced by `b` with `w` lifted, `w` is still the sole winner. -/
+theorem positional_monotone_lift (sc : Scorer) (hsc : ScorerOK sc) (p : RProfile) (w : Cand) (i : Nat) (b : Ballot)
+    (hwf : ∀ x ∈ dkeys p, BallotOK x) (hb : b ∈ dkeys p) (hok : liftOK w i b = true)
+    (h : evalPositional sc p = .ok [Slot.cand w]) :
+    evalPositional sc (replaceUnit p b (lift w i b)) = .ok [Slot.cand w] := by
+  obtain ⟨hacc, hS⟩ := scorer_monotone sc hsc
+  -- w is a candidate of the election
+  have hw : w ∈ allRankedCandidates p := by
+    obtain ⟨d, hd, hk, hn, _⟩ := positional_spec hacc p hwf
+    unfold evalPositional at h
+    rw [hd] at h
+    simp only [Except.ok.injEq] at h
+    rw [sole_iff d hn, soleMax_iff d hn] at h
+    exact (hk w).mp h.1
+  have hU := arc_replaceUnit p b (lift w i b) w hb hw (fun c => mem_ballotCands_lift)
+  have hwf' : ∀ x ∈ dkeys (replaceUnit p b (lift w i b)), BallotOK x := by
+    intro x hx
+    rcases mem_dkeys_replaceUnit hx with hx | rfl
+    · exact hwf x hx
+    · exact (hwf b hb).lift w i
+  apply positional_core hacc p _ w hwf hwf' hU
+    (fun k => bscore (scorerFn sc (allRankedCandidates p).length) (lift w i b) k
+      - bscore (scorerFn sc (allRankedCandidates p).length) b k) ?_ ?_ h
+  · intro k; rw [wsum_replaceUnit _ _ _ _ hb]; ring
+  · intro y hy
+    apply lift_delta (hS _) w i b (hwf b hb).1 hok ?_ y hy
+    apply ((hwf b hb).lift w i).length_le
+    intro c hc
+    rcases mem_ballotCands_lift.mp hc with rfl | hc
+    · exact hw
+    · exact (mem_arc p c).mpr ⟨b, hb, hc⟩
+
+/-- **Positional rules, new ballot.**  A new ballot with `w` alone at the top and any other candidates of the
+    election below keeps `w` the sole winner. -/
+theorem positional_monotone_new (sc : Scorer) (hsc : ScorerOK sc) (p : RProfile) (w : Cand) (rest : Ballot)
+    (hwf : ∀ x ∈ dkeys p, BallotOK x) (hnb : BallotOK (RankItem.one w :: rest))
+    (hsub : ∀ c ∈ ballotCands (RankItem.one w :: rest), c ∈ allRankedCandidates p)
+    (h : evalPositional sc p = .ok [Slot.cand w]) :
+    evalPositional sc (addTo p (RankItem.one w :: rest) 1) = .ok [Slot.cand w] := by
+  obtain ⟨hacc, hS⟩ := scorer_monotone sc hsc
+  have hU := arc_addTo p _ hsub
+  have hwf' : ∀ x ∈ dkeys (addTo p (RankItem.one w :: rest) 1), BallotOK x := by
+    intro x hx
+    rcases (mem_dkeys_addTo p _ 1 x).mp hx with hx | rfl
+    · exact hwf x hx
+    · exact hnb
+  apply positional_core hacc p _ w hwf hwf' hU
+    (fun k => bscore (scorerFn sc (allRankedCandidates p).length) (RankItem.one w :: rest) k) ?_ ?_ h
+  · intro k; rw [wsum_addTo]; ring
+  · intro y _
+    exact new_ballot_delta (hS _) w rest hnb.1 y
+
+/-! ### approval voting -/
+
+/-- what one approval ballot contributes -/
+def approvalItems (bw : Approval × Rat) : List (Cand × Rat) := bw.1.map (fun c => (c, bw.2))
+
+theorem approval_additive : Additive approvalItems (fun b k => cnt b k) (fun b => b) := by
+  refine ⟨fun bw k => ?_, fun bw k => by simp [approvalItems, dkeys, List.map_map, Function.comp_def]⟩
+  obtain ⟨b, v⟩ := bw
+  simp only [approvalItems]
+  induction b with
+  | nil => simp
+  | cons a t ih => rw [List.map_cons, toFun_cons, ih, cnt_cons]; simp only; split <;> ring
+
+theorem evalApproval_eq (p : AProfile) : evalApproval p = .ok (getNBest (accum approvalItems p []) 1) := by
+  unfold evalApproval
+  rw [approvalToSimple_eq_ok false p (by simp)]
+  simp only [Except.ok.injEq]
+  congr 1
+  unfold accum
+  congr 1
+  funext agg bw
+  simp [approvalStep, approvalItems, List.foldl_map]
+
+theorem cnt_approve (w : Cand) (b : Approval) (k : Cand) (hw : w ∉ b) :
+    cnt (approve w b) k = cnt b k + (if w = k then 1 else 0) := by
+  induction b with
+  | nil => simp [approve, cnt_cons]
+  | cons c cs ih =>
+    have hwc : w ≠ c := fun h => hw (by simp [h])
+    have hwcs : w ∉ cs := fun h => hw (by simp [h])
+    by_cases h1 : w < c
+    · simp only [approve, if_pos h1]
+      rw [cnt_cons]; ring
+    · simp only [approve, if_neg h1, if_neg hwc]
+      rw [cnt_cons, cnt_cons, ih hwcs]; ring
+
+theorem mem_approve (w : Cand) (b : Approval) (k : Cand) : k ∈ approve w b ↔ k = w ∨ k ∈ b := by
+  induction b with
+  | nil => simp [approve]
+  | cons c cs ih =>
+    simp only [approve]
+    split
+    · simp
+    · split
+      · rename_i h; subst h; simp
+      · simp only [List.mem_cons, ih]; tauto
+
+/-- **Approval, single ballot improvement**: one voter who did not approve the sole winner `w` now does. -/
+theorem approval_monotone_approve (p : AProfile) (b : Approval) (w : Cand) (hb : b ∈ dkeys p) (hw : w ∉ b)
+    (h : evalApproval p = .ok [Slot.cand w]) :
+    evalApproval (replaceUnit p b (approve w b)) = .ok [Slot.cand w] := by
+  rw [evalApproval_eq] at h ⊢
+  simp only [Except.ok.injEq] at h ⊢
+  apply additive_winner_monotone approval_additive p b (approve w b) w hb (mem_approve w b) ?_ h
+  intro y hy
+  rw [cnt_approve w b y hw, cnt_approve w b w hw, if_neg (fun h => hy h.symm), if_pos rfl]
+  linarith
+
+/-- **Approval, new ballot**: a new ballot approving `w` (and any other candidates of the election). -/
+theorem approval_monotone_new (p : AProfile) (nb : Approval) (w : Cand) (hnd : nb.Nodup) (hw : w ∈ nb)
+    (hsub : ∀ c ∈ nb, ∃ b ∈ dkeys p, c ∈ b)
+    (h : evalApproval p = .ok [Slot.cand w]) :
+    evalApproval (addTo p nb 1) = .ok [Slot.cand w] := by
+  rw [evalApproval_eq] at h ⊢
+  simp only [Except.ok.injEq] at h ⊢
+  apply additive_winner_monotone_new approval_additive p nb w ?_ ?_ h
+  · intro k hk; exact (approval_additive.mem_keys p k).mpr (hsub k hk)
+  · intro y
+    rw [cnt_of_nodup hnd w, if_pos hw]
+    exact cnt_le_one hnd y
+
+/-! ### score voting with sum aggregation -/
+
+def scoreItems (bw : ScoreBallot × Rat) : List (Cand × Rat) := bw.1.map (fun cs => (cs.1, bw.2 * cs.2))
+
+theorem score_additive : Additive scoreItems (fun b k => toFun b k) (fun b => dkeys b) := by
+  refine ⟨fun bw k => ?_, fun bw k => by simp [scoreItems, dkeys, List.map_map, Function.comp_def]⟩
+  obtain ⟨b, v⟩ := bw
+  simp only [scoreItems]
+  induction b with
+  | nil => simp
+  | cons a t ih => rw [List.map_cons, toFun_cons, toFun_cons, ih]; simp only; split <;> ring
+
+theorem evalScoreSum_eq (p : SProfile) : evalScoreSum p = getNBest (accum scoreItems p []) 1 := by
+  unfold evalScoreSum scoreSum accum
+  congr 2
+  funext agg bw
+  simp [scoreItems, List.foldl_map]
+
+/-- a score ballot in canonical form: candidates strictly ascending (a frozenset of (candidate, score) pairs
+    scoring every candidate at most once) -/
+def ScoreBallotOK (b : ScoreBallot) : Prop := (dkeys b).Pairwise (· < ·)
+
+theorem toFun_raiseScore (w : Cand) (s : Rat) (b : ScoreBallot) (hb : ScoreBallotOK b) (k : Cand) :
+    toFun (raiseScore w s b) k = if k = w then s else toFun b k := by
+  induction b with
+  | nil =>
+    simp only [raiseScore, toFun_cons, toFun_nil]
+    by_cases h : k = w
+    · rw [if_pos h.symm, if_pos h]; ring
+    · rw [if_neg (fun h' => h h'.symm), if_neg h]; ring
+  | cons e rest ih =>
+    obtain ⟨c, x⟩ := e
+    unfold ScoreBallotOK at hb ih
+    simp only [dkeys, List.map_cons, List.pairwise_cons] at hb ih
+    obtain ⟨hlt, hrest⟩ := hb
+    simp only [raiseScore]
+    by_cases h1 : w < c
+    · rw [if_pos h1, toFun_cons]
+      simp only
+      by_cases hk : k = w
+      · subst hk
+        rw [if_pos rfl, if_pos rfl]
+        have : toFun ((c, x) :: rest) k = 0 := by
+          apply toFun_eq_zero_of_not_mem
+          simp only [dkeys, List.map_cons, List.mem_cons, not_or]
+          refine ⟨fun h => ?_, fun hm => ?_⟩
+          · rw [h] at h1; exact lt_irrefl _ h1
+          · exact lt_asymm h1 (hlt k hm)
+        rw [this]; ring
+      · rw [if_neg (fun h => hk h.symm), if_neg hk]; ring
+    · rw [if_neg h1]
+      by_cases h2 : w = c
+      · subst h2
+        rw [if_pos rfl, toFun_cons, toFun_cons]
+        simp only
+        by_cases hk : k = w
+        · subst hk
+          have : toFun rest k = 0 := by
+            apply toFun_eq_zero_of_not_mem
+            intro hm
+            exact lt_irrefl _ (hlt k hm)
+          rw [if_pos rfl, if_pos rfl, this]; ring
+        · rw [if_neg (fun h => hk h.symm), if_neg hk, if_neg (fun h => hk h.symm)]
+      · rw [if_neg h2, toFun_cons, toFun_cons, ih hrest]
+        simp only
+        by_cases hk : k = w
+        · subst hk
+          rw [if_neg (fun h => h2 h.symm), if_pos rfl, if_pos rfl]; ring
+        · rw [if_neg hk, if_neg hk]
+
+theorem mem_dkeys_raiseScore (w : Cand) (s : Rat) (b : ScoreBallot) (k : Cand) :
+    k ∈ dkeys (raiseScore w s b) ↔ k = w ∨ k ∈ dkeys b := by
+  induction b with
+  | nil => simp [raiseScore, dkeys]
+  | cons e rest ih =>
+    obtain ⟨c, x⟩ := e
+    simp only [raiseScore]
+    split
+    · simp [dkeys]
+    · split
+      · rename_i h; subst h; simp [dkeys]
+      · simp only [dkeys, List.map_cons, List.mem_cons] at ih ⊢
+        rw [ih]; tauto
+
+/-- **Score-sum, single ballot improvement**: on one ballot the score of the sole winner `w` is raised (an
+    unscored `w`, which the sum treats as 0, gets a non-negative score). -/
+theorem score_sum_monotone_raise (p : SProfile) (b : ScoreBallot) (w : Cand) (s : Rat) (hb : b ∈ dkeys p)
+    (hok : ScoreBallotOK b) (hs : toFun b w ≤ s)
+    (h : evalScoreSum p = [Slot.cand w]) :
+    evalScoreSum (replaceUnit p b (raiseScore w s b)) = [Slot.cand w] := by
+  rw [evalScoreSum_eq] at h ⊢
+  apply additive_winner_monotone score_additive p b (raiseScore w s b) w hb (mem_dkeys_raiseScore w s b) ?_ h
+  intro y hy
+  rw [toFun_raiseScore w s b hok y, toFun_raiseScore w s b hok w, if_neg hy, if_pos rfl]
+  linarith
+
+/-- **Score-sum, new ballot**: a new ballot on which nobody is scored above `w` (an unscored candidate counts 0). -/
+theorem score_sum_monotone_new (p : SProfile) (nb : ScoreBallot) (w : Cand)
+    (hsub : ∀ c ∈ dkeys nb, ∃ b ∈ dkeys p, c ∈ dkeys b)
+    (htop : ∀ y, toFun nb y ≤ toFun nb w)
+    (h : evalScoreSum p = [Slot.cand w]) :
+    evalScoreSum (addTo p nb 1) = [Slot.cand w] := by
+  rw [evalScoreSum_eq] at h ⊢
+  apply additive_winner_monotone_new score_additive p nb w ?_ htop h
+  intro k hk; exact (score_additive.mem_keys p k).mpr (hsub k hk)
+
+/-! ### Bucklin (`PreferenceAddition()`; shared ranks counted in full, i.e. `split_equal_rankings=False`, which
+    coincides with the default on profiles without shared ranks) -/
+
+theorem ne_nil_of_mem_dkeys {κ : Type} {p : Dict κ} {b : κ} (h : b ∈ dkeys p) : p ≠ [] := by
+  rintro rfl; simp [dkeys] at h
+
+theorem addTo_ne_nil {κ : Type} [DecidableEq κ] (p : Dict κ) (b : κ) (v : Rat) : addTo p b v ≠ [] := by
+  cases p with
+  | nil => simp [addTo]
+  | cons e t => obtain ⟨k, x⟩ := e; simp only [addTo]; split <;> simp
+
+/-- **Bucklin, single ballot improvement.**  Non-negative weights, ballots without repeated candidates: if `w` is
+    the sole winner and one unit of ballot `b` is replaced by `b` with `w` lifted, `w` is still the sole winner. -/
+theorem bucklin_monotone_lift (p : RProfile) (w : Cand) (i : Nat) (b : Ballot)
+    (hpos : ∀ bw ∈ p, 0 ≤ bw.2) (hb : b ∈ dkeys p) (hnd : (ballotCands b).Nodup) (hok : liftOK w i b = true)
+    (h : evalBucklin p = .ok [Slot.cand w]) :
+    evalBucklin (replaceUnit p b (lift w i b)) = .ok [Slot.cand w] := by
+  rw [evalBucklin_eq p (ne_nil_of_mem_dkeys hb)] at h
+  rw [evalBucklin_eq _ (show replaceUnit p b (lift w i b) ≠ [] from addTo_ne_nil _ _ _)]
+  simp only [Except.ok.injEq] at h ⊢
+  have hq : sumValues (replaceUnit p b (lift w i b)) = sumValues p := by
+    rw [sumValues_eq_wsum, sumValues_eq_wsum, wsum_replaceUnit _ _ _ _ hb]; ring
+  rw [hq]
+  have hq0 : 0 ≤ sumValues p / 2 := by have := sumValues_nonneg p hpos; linarith
+  have hT : ∀ j k, toFun (cum (replaceUnit p b (lift w i b)) j) k
+      = toFun (cum p j) k - rankScore (indLe j) 0 b k + rankScore (indLe j) 0 (lift w i b) k := by
+    intro j k; rw [toFun_cum, toFun_cum, wsum_replaceUnit _ _ _ _ hb]
+  apply loopA_mono (cum p) _ _ _ w (nodup_cum p) (nodup_cum _) hq0 hq0 ?_ ?_ ?_ (maxLen p) _ 0 ?_ h
+  · intro j y hy hlt
+    have := (lift_cum j w i b hnd hok y hy).1
+    rw [hT] at hlt; linarith
+  · intro j hlt
+    obtain ⟨y, hy⟩ : ∃ y, y ≠ w := ⟨w + 1, by omega⟩
+    have := (lift_cum j w i b hnd hok y hy).2
+    rw [hT]; linarith
+  · intro j y hy _ hlt
+    have h1 := (lift_cum j w i b hnd hok y hy).1
+    have h2 := (lift_cum j w i b hnd hok y hy).2
+    rw [hT, hT]; linarith
+  · apply maxLen_le
+    intro x hx
+    rcases mem_dkeys_replaceUnit_of_mem (b := b) (b' := lift w i b) hx with rfl | hx'
+    · exact le_trans (length_le_lift hnd hok) (le_maxLen (new_mem_dkeys_replaceUnit p x _))
+    · exact le_maxLen hx'
+
+/-- **Bucklin, new ballot.**  A new bullet ballot for the sole winner `w` (the quota rises by one half, `w`'s totals
+    by one) keeps `w` the sole winner. -/
+theorem bucklin_monotone_bullet (p : RProfile) (w : Cand) (hpos : ∀ bw ∈ p, 0 ≤ bw.2) (hp : p ≠ [])
+    (h : evalBucklin p = .ok [Slot.cand w]) :
+    evalBucklin (addTo p [RankItem.one w] 1) = .ok [Slot.cand w] := by
+  rw [evalBucklin_eq p hp] at h
+  rw [evalBucklin_eq _ (addTo_ne_nil _ _ _)]
+  simp only [Except.ok.injEq] at h ⊢
+  have hq : sumValues (addTo p [RankItem.one w] 1) = sumValues p + 1 := by
+    rw [sumValues_eq_wsum, sumValues_eq_wsum, wsum_addTo]; ring
+  rw [hq]
+  have hs0 := sumValues_nonneg p hpos
+  have hT : ∀ j k, toFun (cum (addTo p [RankItem.one w] 1) j) k
+      = toFun (cum p j) k + (if w = k then 1 else 0) := by
+    intro j k
+    rw [toFun_cum, toFun_cum, wsum_addTo]
+    simp only [rankScore, RankItem.cands, indLe, Nat.zero_le, ↓reduceIte, one_mul, add_zero, cnt_cons, cnt_nil]
+  apply loopA_mono (cum p) _ _ _ w (nodup_cum p) (nodup_cum _) (by linarith) (by linarith) ?_ ?_ ?_ (maxLen p) _ 0 ?_ h
+  · intro j y hy hlt
+    rw [hT, if_neg (fun h => hy h.symm)] at hlt; linarith
+  · intro j hlt
+    rw [hT, if_pos rfl]; linarith
+  · intro j y hy _ hlt
+    rw [hT, hT, if_neg (fun h => hy h.symm), if_pos rfl]; linarith
+  · apply maxLen_le
+    intro x hx
+    exact le_maxLen ((mem_dkeys_addTo p _ 1 x).mpr (Or.inl hx))
 
 end VL.C17
